@@ -58,16 +58,18 @@ class _dtype_value_context:
             cls._global_half_value = half_value
 
     def __init__(self, float_value=None, double_value=None, half_value=None):
-        self._orig_float_value = self.__class__.value(torch.float)
-        self._instance_float_value = float_value if float_value is not None else self._orig_float_value
-        self._orig_double_value = self.__class__.value(torch.double)
-        self._instance_double_value = double_value if double_value is not None else self._orig_double_value
-        self._orig_half_value = self.__class__.value(torch.half)
-        self._instance_half_value = half_value if half_value is not None else self._orig_half_value
+        # None: this block leaves the field as it finds it
+        self._instance_float_value = float_value
+        self._instance_double_value = double_value
+        self._instance_half_value = half_value
 
     def __enter__(
         self,
     ):
+        # What __exit__ restores is what is visible when the block is entered (not when the object was created)
+        self._orig_float_value = self.__class__.value(torch.float)
+        self._orig_double_value = self.__class__.value(torch.double)
+        self._orig_half_value = self.__class__.value(torch.half)
         self.__class__._set_value(
             self._instance_float_value,
             self._instance_double_value,
@@ -114,6 +116,8 @@ class _feature_flag:
         self.state = state
 
     def __enter__(self):
+        # What __exit__ restores is what is visible when the block is entered (not when the object was created)
+        self.prev = self.__class__._state
         self.__class__._set_state(self.state)
 
     def __exit__(self, *args):
@@ -139,6 +143,8 @@ class _value_context:
     def __enter__(
         self,
     ):
+        # What __exit__ restores is what is visible when the block is entered (not when the object was created)
+        self._orig_value = self.__class__.value()
         self.__class__._set_value(self._instance_value)
 
     def __exit__(self, *args):
@@ -216,6 +222,7 @@ class fast_pred_var(_feature_flag):
         super().__init__(state)
 
     def __enter__(self):
+        self.orig_value = self.__class__.num_probe_vectors()
         self.__class__._set_num_probe_vectors(self.value)
         super().__enter__()
 
